@@ -89,7 +89,7 @@ CLAIMED = {
         "documented layout predicate for every 64-bit word. The code is bound to the model in both directions: TLC "
         "-simulate emits near-valid words that are replayed into isValidCell, and 10^5..2x10^6 random/mutated words "
         "plus every cell produced by 25 cell-returning API functions are validated event by event by TLC against "
-        "ValidCell (trace spec Trace_C01).",
+        "ValidCell (trace spec Trace_C01). The same judgement is applied to the calls 8 threads make at the same time on their own uniform points (suite points-concurrent).",
         "Trusted: TLC, the hand transcription H3Validity.tla (bound by replay), ndjson 4-word encoding, the driver "
         "copying results. The closure clause is checked on the calls the drivers make (all suites log produced cells).",
         "DESIGN.md 3.2, 5/C01"),
